@@ -115,7 +115,40 @@ SkPrograms == <<
                       ArmC(Bin("or", Bin("<", CH, I(0)), Bin("==", Fld(V(41), "z"), I(3))), <<PrintE(V(42))>>),
                       ArmE(<<PrintE(CF(I(1), Bin("+", CG(I(2)), I(3))))>>)>>)),
               Ex(CaseT(Var1("Col", "R", CF(I(1), I(2))),
-                       <<CArmB("R", 44, <<PrintE(V(44))>>), CArm("G", <<PrintE(I(0))>>), CArmB("W", 45, <<PrintE(CG(V(45)))>>)>>))>>)>>
+                       <<CArmB("R", 44, <<PrintE(V(44))>>), CArm("G", <<PrintE(I(0))>>), CArmB("W", 45, <<PrintE(CG(V(45)))>>)>>))>>)>>,
+  \* 17: implicit vs explicit return with every kind of trailing expression, in functions placed BEFORE and AFTER the
+  \*     globals / functions they mention (bare global declared later / earlier, local, call, literal, if, tuple, list)
+  <<DefN(2101, "const", TNone, Fn(<<>>, TInt, <<Ex(V(2102))>>), "retries"),
+    DefN(2108, "const", TNone, Fn(<<>>, TInt, <<Ex(Call(V(2106), <<>>))>>), "viacall"),
+    DefN(2109, "const", TNone, Fn(<<P(53, TBool)>>, TInt, <<Ex(If2(V(53), <<Ex(V(2102))>>, <<Ex(V(2107))>>))>>), "viaif"),
+    DefN(2110, "const", TNone, Fn(<<>>, TTuple(<<TInt, TInt>>), <<Ex(Tup(<<V(2102), V(2107)>>))>>), "viatuple"),
+    DefN(2111, "const", TNone, Fn(<<>>, TList(TInt), <<Ex(Lst(<<V(2107)>>))>>), "vialist"),
+    DefN(2112, "const", TNone, Fn(<<>>, TInt, <<Ex(V(2107))>>), "mutlater"),
+    DefN(2102, "const", TInt, I(5), "maxr"),
+    DefN(2107, "mut", TInt, I(3), "level"),
+    DefN(2106, "const", TNone, Fn(<<>>, TInt, <<Ex(I(7))>>), "late"),
+    DefN(2103, "const", TNone, Fn(<<>>, TInt, <<Ex(V(2102))>>), "after"),
+    DefN(2104, "const", TNone, Fn(<<P(51, TInt)>>, TInt, <<DefM(52, TInt, Bin("+", V(51), V(2107))), Ex(V(52))>>), "loc"),
+    SkStart(<<PrintE(Call(V(2101), <<>>)), PrintE(Call(V(2108), <<>>)), PrintE(Call(V(2109), <<Bo(TRUE)>>)), PrintE(Call(V(2110), <<>>)),
+              PrintE(Call(V(2111), <<>>)), PrintE(Call(V(2112), <<>>)), PrintE(Call(V(2103), <<>>)), PrintE(Call(V(2104), <<I(1)>>))>>)>>,
+  \* 18: callees that are not names (call result, tuple index, function literal, if expression) and multi-line lambdas
+  \*     without a return type whose bodies start with a type-like token (variant, blob literal), inside brackets
+  <<EnumD("Col", <<VD1("R", TInt), VD0("G"), VD1("W", TInt)>>),
+    BlobD("Pt", <<FD("x", TInt), FD("y", TInt)>>),
+    DefN(2201, "const", TNone, Fn(<<P(61, TFn(<<TInt>>, TName("Col"))), P(62, TInt)>>, TName("Col"), <<Ex(Call(V(61), <<V(62)>>))>>), "mkc"),
+    DefN(2202, "const", TNone, Fn(<<P(63, TFn(<<TInt>>, TName("Pt"))), P(64, TInt)>>, TName("Pt"), <<Ex(Call(V(63), <<V(64)>>))>>), "mkp"),
+    DefN(2203, "const", TNone, Fn(<<P(65, TInt), P(66, TInt)>>, TInt, <<Ex(Bin("*", V(65), V(66)))>>), "sc"),
+    DefN(2204, "const", TNone, Fn(<<P(67, TInt), P(68, TInt)>>, TInt, <<Ex(Bin("+", V(67), V(68)))>>), "sh"),
+    DefN(2205, "const", TNone, Fn(<<P(69, TBool)>>, TFn(<<TInt, TInt>>, TInt), <<Ex(If1(V(69), <<Ret(V(2203))>>)), Ex(V(2204))>>), "pick"),
+    SkStart(<<DefC(71, TNone, Call(V(2201), <<Fn(<<P(72, TInt)>>, TNone, <<Ex(Var1("Col", "R", V(72)))>>), I(3)>>)),
+              DefC(73, TNone, Call(V(2202), <<Fn(<<P(74, TInt)>>, TNone, <<Ex(BlobL("Pt", <<FI("x", V(74)), FI("y", I(1))>>))>>), I(4)>>)),
+              DefC(75, TNone, Tup(<<V(2203), V(2204), Fn(<<P(76, TInt), P(77, TInt)>>, TNone, <<Ex(Bin("-", V(76), V(77)))>>)>>)),
+              DefM(78, TInt, Call(Call(V(2205), <<Bo(TRUE)>>), <<I(3), I(4)>>)),
+              DefM(79, TInt, Call(V(2204), <<Call(Idx(V(75), 1), <<V(78), I(1)>>), I(10)>>)),
+              DefM(80, TInt, Call(Call(V(2205), <<Bo(FALSE)>>), <<Call(V(2203), <<V(79), I(2)>>), I(1)>>)),
+              DefM(81, TInt, Call(Fn(<<P(82, TInt), P(83, TInt)>>, TInt, <<Ex(Bin("+", V(82), V(83)))>>), <<V(78), V(79)>>)),
+              DefM(84, TInt, Call(If2(Bin(">", V(78), V(79)), <<Ex(V(2203))>>, <<Ex(V(2204))>>), <<I(1), I(2)>>)),
+              PrintE(V(71)), PrintE(Fld(V(73), "x")), PrintE(Bin("+", Bin("+", V(78), V(79)), Bin("+", V(80), Bin("+", V(81), V(84)))))>>)>>
 >>
 
 (* ---------------------------------------------------------------- skeleton expressions of the token-level model *)
@@ -134,7 +167,8 @@ RawChoices(e) ==
     LET S == ModelSites(e)
         C == OfKind(S, "c")
         IXC == IndexMap(C)
-        PK == {S[i].key : i \in {j \in 1..Len(S) : S[j].kind = "p" /\ SubSeq(S[j].ctx, Len(S[j].ctx) - 3, Len(S[j].ctx)) = "call"}}
+        PK == {S[i].key : i \in {j \in 1..Len(S) : S[j].kind = "p" /\ (SubSeq(S[j].ctx, Len(S[j].ctx) - 3, Len(S[j].ctx)) = "call"
+                                                                       \/ SubSeq(S[j].ctx, 1, 6) = "callee")}}
         BK == {S[i].key : i \in {j \in 1..Len(S) : S[j].kind = "b"}}
         callPrefs == {pf \in [DOMAIN IXC -> 0..3] : \A key \in DOMAIN IXC : pf[key] < C[IXC[key]].n}
         parenPrefs == {E0} \cup {(pk :> 1) : pk \in PK}
@@ -158,7 +192,7 @@ ModelSame(e, ch) == ModelParse(e, ModelPath, ch) = Show(e)
 \* (each site keeps the mask bits it has)
 Pattern(S, IX, o) ==
     Pref(IX, LAMBDA i : CASE S[i].kind = "c" -> Cap(S[i], o.c) [] S[i].kind = "t" -> Cap(S[i], o.t) [] S[i].kind = "l" -> Cap(S[i], o.l)
-                          [] S[i].kind = "p" -> Cap(S[i], o.p) [] S[i].kind = "s" -> o.s [] S[i].kind \in {"b", "g", "o", "d"} -> o.y)
+                          [] S[i].kind = "p" -> Cap(S[i], o.p) [] S[i].kind = "s" -> o.s [] S[i].kind \in {"b", "g", "o", "d", "f", "h"} -> o.y)
 PV(c, t, l, p, s_, y) == [c |-> c, t |-> t, l |-> l, p |-> p, s |-> s_, y |-> y]
 
 TC == 4  TCB == 11  TBC == 12  CBC == 16  BC == 8  C1 == 2  B1 == 3  T1 == 1       \* names of some trivia sequences (TrivSeqs[n + 1])
@@ -169,6 +203,8 @@ SingleVals(s) == CASE s.kind \in {"c", "t", "l"} -> 1..(s.n - 1)
                    [] s.kind = "g" -> {}                \* exists only together with parentheses: see the patterns
                    [] s.kind = "o" -> {2, LVal(2, C1)}
                    [] s.kind = "d" -> {LVal(7, C1), LVal(2, BC)}
+                   [] s.kind = "f" -> {7, LVal(7, C1)}
+                   [] s.kind = "h" -> {LVal(1, T1), LVal(1, TC), LVal(1, C1)}
 
 \* exhKeys: the sugar sites over which ALL legal choice functions are taken (when they are few enough)
 Variants(tops, from, exhKeys, maxProd, full) ==
@@ -179,7 +215,8 @@ Variants(tops, from, exhKeys, maxProd, full) ==
         RP(o) == R(Pattern(S, IX, o))
         exh == IF Len(XS) <= MaxExh /\ Product(XS, 1) <= maxProd THEN {R(pf) : pf \in AllPrefs(XS)} ELSE {}
         singles == UNION {{R(SingleOpt(IX, i, v)) : v \in SingleVals(S[i])}
-                          : i \in {j \in 1..Len(S) : S[j].kind \in {"c", "t", "l"} \/ Len(S) <= MaxSingles}}
+                          : i \in {j \in 1..Len(S) : S[j].kind \in {"c", "t", "l"} \/ Len(S) <= MaxSingles
+                                                    \/ (S[j].kind \in {"p", "h"} /\ SubSeq(S[j].ctx, Len(S[j].ctx) - 1, Len(S[j].ctx)) = "fn")}}
         uniform == {RP(PV(v, 0, 0, 0, 0, 0)) : v \in 1..3}
                    \cup {RP(PV(0, 1, 0, 0, 0, 0)), RP(PV(0, 0, 1, 0, 0, 0))}
                    \cup {RP(PV(v, 1, 1, 0, 0, 0)) : v \in 1..3}
@@ -196,7 +233,7 @@ Variants(tops, from, exhKeys, maxProd, full) ==
         parens == {RP(PV(v, 1, 1, pv, 0, 0)) : v \in 1..3, pv \in 1..2}
         strided == {R(Strided(S, IX, {"p"}, 1, 3, r)) : r \in 0..2}
                    \cup {R(Strided(S, IX, {"s"}, 15, 2, r)) : r \in 0..1}
-                   \cup {R(Strided(S, IX, {"b", "g", "o", "d"}, LVal(7, CBC), 2, r)) : r \in 0..1}
+                   \cup {R(Strided(S, IX, {"b", "g", "o", "d", "f", "h"}, LVal(7, CBC), 2, r)) : r \in 0..1}
                    \cup {R(Strided(S, IX, {"c", "t", "l"}, v, 2, r)) : v \in 1..3, r \in 0..1}
         kitchen == {R(WithIndent(Pattern(S, IX, PV(v, 1, 1, 0, 15, LVal(7, TCB))), 2)) : v \in 1..3}
                    \cup {R(WithIndent(Pattern(S, IX, PV(v, 1, 1, 1, 3, LVal(7, B1))), 9)) : v \in 1..3}
